@@ -40,6 +40,9 @@ F1, F2, F3 = "C05-F1", "C05-F2", "C05-F3"
 FIXED = int(os.environ.get("VERIF_C05_FIXED", "1"))
 FIXED5 = K.FIXED5      # VERIF_C05_FIXED_F5 (default 1, fix 4b4f5c6 is in /repo): without fix-F5 a name ending in a non-ASCII blank is C05-F5
 F5 = "C05-F5"
+FIXED7 = K.FIXED7      # VERIF_C05_FIXED_F7 (default 1: fix commit f2636f2 is in /repo)
+F7 = "C05-F7"     # merged MediaWiki save: a library node rooted in a tree without extensionAllowed reloads under a wrong parent
+F6 = "C05-F6"     # a name holding a tab or line feed (allowedCharacter=tab/newline): no TSV cell / MediaWiki line can hold it
 WIKI_RESERVED = ("<nowiki>", "</nowiki>") if FIXED else ("extend here", "<nowiki>", "</nowiki>")
 
 # Defect classes found by this oracle that are not (yet) registered findings.  Failures of such a class carry
@@ -501,6 +504,7 @@ class _Gen:
         self.boundary = boundary          # None or a finding id: plant exactly one boundary description
         self.planted = None
         self.planted_name = None if plant_names else "\0disabled"     # histories use clean edits only
+        self.planted_ctl = not plant_names
         self.ops = []
         m = ctx.merged_root
         self.tag_names = {(_name(n) or "").casefold() for n in m.iter("node")}
@@ -512,6 +516,16 @@ class _Gen:
         self.std_targets = sorted(_name(n) for n in m.iter("node")
                                   if _name(n) != "#" and not any(a[0] == "inLibrary" for a in _attrs(n))
                                   and not any(_name(k) == "#" for k in n.findall("node"))) if ctx.partnered else []
+
+        # ... grouped by top-level tree: the tree is a dimension of its own (only some trees allow extensions, and the
+        # entries of the others are not sorted by the loader)
+        self.std_by_top = {}
+        if ctx.partnered and m.find("schema") is not None:
+            ok = set(self.std_targets)
+            for top in m.find("schema").findall("node"):
+                names = [_name(n) for n in top.iter("node") if _name(n) in ok]
+                if names:
+                    self.std_by_top[_name(top)] = sorted(names)
 
     # ---- helpers
     def emit(self, op):
@@ -589,6 +603,52 @@ class _Gen:
                 return self.outer_blank_name(nm, leading=True) if not suffix else nm
         raise RuntimeError("no fresh name")
 
+    # ---- names of non-tag entries with characters admitted through the entry's own allowedCharacter attribute
+    AC_CLASSES = None
+
+    def ac_rename(self, spec, p=0.3):
+        """With probability p give a unit / unit modifier / value class spec a name that uses 1-2 characters outside
+        the default name class, admitted by adding allowedCharacter=<class> to the entry itself (as the bundled units
+        '$' {allowedCharacter=dollar} and m^2 {allowedCharacter=caret} do): slash (m/s), caret, dollar, blank,
+        percent-sign, parentheses, quotes, equals, comma, asterisk, number-sign ... at interior and outer positions.
+        A tab or line feed (classes tab / newline) is admitted by the compliance check as well but cannot be held by
+        a TSV cell / a MediaWiki line: planted rarely, finding C05-F6."""
+        rng, c = self.rng, self.c
+        if not c.new_era or rng.random() >= p:
+            return spec
+        if _Gen.AC_CLASSES is None:
+            from hed.schema.hed_schema_constants import character_types
+            _Gen.AC_CLASSES = {k: next(iter(v)) for k, v in sorted(character_types.items())
+                               if isinstance(v, set) and len(v) == 1}
+        pool = sorted(k for k in _Gen.AC_CLASSES if k not in ("tab", "newline"))
+        classes = rng.sample(pool, rng.choice([1, 1, 2]))
+        if rng.random() < 0.35:
+            classes[0] = "slash"
+        if not self.planted_ctl and rng.random() < 0.06:
+            classes = [rng.choice(["tab", "newline"])]
+            self.planted_ctl = True
+        nm = spec["name"]
+        for k in dict.fromkeys(classes):
+            ch = _Gen.AC_CLASSES[k]
+            r = rng.random()
+            if ch in " " or r < 0.7 or k in ("tab", "newline"):
+                pos = rng.randint(1, max(1, len(nm) - 1))
+            else:
+                pos = 0 if r < 0.85 else len(nm)
+            nm = nm[:pos] + ch + nm[pos:]
+        if nm.casefold() in self.other_names:
+            return spec
+        self.other_names.add(nm.casefold())
+        spec["name"] = nm
+        attrs = spec["attrs"]
+        cur = next((a for a in attrs if a[0] == "allowedCharacter"), None)
+        if cur is not None:
+            cur[1] = list(dict.fromkeys(cur[1] + classes))
+        else:
+            k = next((i for i, a in enumerate(attrs) if a[0] == "inLibrary"), len(attrs))
+            attrs.insert(k, ["allowedCharacter", list(dict.fromkeys(classes))])
+        return spec
+
     def tag_attrs(self, k=None):
         """0-3 attributes for a non-placeholder node."""
         rng, c = self.rng, self.c
@@ -639,7 +699,8 @@ class _Gen:
         kind = "add_tag"
         if c.partnered and c.has_rooted and self.std_targets and r < 0.3:
             # library sub-tree rooted below a node of the standard schema
-            target = rng.choice(self.std_targets)
+            target = rng.choice(self.std_by_top[rng.choice(sorted(self.std_by_top))]) if self.std_by_top \
+                else rng.choice(self.std_targets)
             extra = [["rooted", [target]]]
             kind = "add_rooted"
             if c.base == "merged":
@@ -758,14 +819,18 @@ class _Gen:
         if c.has_cf and rng.random() < 0.6:
             attrs.append(["conversionFactor", [rng.choice(["1.0", "0.001", "1000.0", "60", "1e3", "2.54e-2"])]])
         rng.shuffle(attrs)
-        return {"tag": "unit", "name": self.other_name(), "desc": self.desc(0.5), "attrs": attrs + self.lib_attr()}
+        return self.ac_rename({"tag": "unit", "name": self.other_name(), "desc": self.desc(0.5),
+                               "attrs": attrs + self.lib_attr()})
 
     def op_add_unit_class(self):
         rng = self.rng
         units = [self.unit_spec() for _ in range(rng.choice([1, 1, 2]))]
         attrs = []
-        if rng.random() < 0.7:
-            attrs.append(["defaultUnits", [units[0]["name"]]])
+        # an attribute VALUE cannot hold ',' or '=' and loses outer blanks (the attribute grammar): such a unit is not
+        # referenced by name
+        ref = units[0]["name"]
+        if rng.random() < 0.7 and not any(x in ref for x in ",=\t\n") and ref == ref.strip():
+            attrs.append(["defaultUnits", [ref]])
         spec = {"tag": "unitClassDefinition", "name": self.other_name("Units"), "desc": self.desc(0.6),
                 "attrs": attrs + self.lib_attr(), "children": units}
         self.emit({"op": "add", "kind": "add_unit_class", "sec": "unitClassDefinitions", "path": [], "elem": spec,
@@ -797,8 +862,8 @@ class _Gen:
         attrs = []
         if rng.random() < 0.8:
             attrs.append(["allowedCharacter", rng.sample(ALLOWED_CHAR_VALUES, rng.choice([1, 2, 3, 4]))])
-        spec = {"tag": "valueClassDefinition", "name": self.other_name("Class"), "desc": self.desc(0.7),
-                "attrs": attrs + self.lib_attr()}
+        spec = self.ac_rename({"tag": "valueClassDefinition", "name": self.other_name("Class"), "desc": self.desc(0.7),
+                               "attrs": attrs + self.lib_attr()})
         self.emit({"op": "add", "kind": "add_value_class", "sec": "valueClassDefinitions", "path": [], "elem": spec,
                    "at": None})
         self.value_classes.append(spec["name"])
@@ -808,8 +873,8 @@ class _Gen:
         attrs = [[rng.choice(c.mod_bool), []]] if c.mod_bool else []
         if c.has_cf and rng.random() < 0.7:
             attrs.append(["conversionFactor", [rng.choice(["10.0", "0.5", "1e-6"] + ([] if c.new_era else ["10^3"]))]])
-        spec = {"tag": "unitModifierDefinition", "name": self.other_name(), "desc": self.desc(0.5),
-                "attrs": attrs + self.lib_attr()}
+        spec = self.ac_rename({"tag": "unitModifierDefinition", "name": self.other_name(), "desc": self.desc(0.5),
+                               "attrs": attrs + self.lib_attr()})
         self.emit({"op": "add", "kind": "add_unit_modifier", "sec": "unitModifierDefinitions", "path": [],
                    "elem": spec, "at": None})
 
@@ -915,6 +980,32 @@ def _corpus():
     ops.append({"op": "add", "kind": "witness", "sec": "unitClassDefinitions", "path": ["weightUnits"], "at": None,
                 "elem": {"tag": "unit", "name": "zzstone", "desc": "An old unit.\u202814 pounds.", "attrs": []}})
     cs.append({"kind": "edit", "schema": "HED8.3.0.xml", "base": "merged", "files": True, "ops": ops})
+    # C05-F7: a library node rooted under a tag of a top-level tree that does not allow extensions (Agent)
+    cs.append({"kind": "edit", "schema": "HED_testlib_2.0.0.xml", "base": "unmerged", "files": False, "expect_fid": F7, "ops": [
+        {"op": "add", "kind": "add_rooted", "sec": "schema", "path": [], "at": 0,
+         "elem": {"tag": "node", "name": "Zz-rooted", "desc": None, "attrs": [["rooted", ["Avatar-agent"]]],
+                  "children": [{"tag": "node", "name": "Zz-rooted-child", "desc": "d", "attrs": [], "children": []}]}}]})
+    # C05-F6: a unit whose name holds a tab, admitted through allowedCharacter=tab
+    cs.append({"kind": "edit", "schema": "HED8.3.0.xml", "base": "merged", "files": False, "expect_fid": F6, "ops": [
+        {"op": "add", "kind": "witness", "sec": "unitClassDefinitions", "path": ["weightUnits"], "at": None,
+         "elem": {"tag": "unit", "name": "zq\tx", "desc": None, "attrs": [["allowedCharacter", ["tab"]]]}}]})
+    # regression: non-tag names that are one opaque term with characters admitted through allowedCharacter --
+    # units m/s, km/h, l/min, a value class and a unit modifier with a slash, standard schema and library (both bases)
+    def slash_ops(lib=None):
+        la = [["inLibrary", [lib]]] if lib else []
+        return [
+            {"op": "add", "kind": "witness", "sec": "unitClassDefinitions", "path": ["speedUnits"], "at": None,
+             "elem": {"tag": "unit", "name": "m/s", "desc": "metre per second", "attrs": [["allowedCharacter", ["slash"]]] + la}},
+            {"op": "add", "kind": "witness", "sec": "unitClassDefinitions", "path": ["speedUnits"], "at": None,
+             "elem": {"tag": "unit", "name": "km/h", "desc": None, "attrs": [["allowedCharacter", ["slash"]]] + la}},
+            {"op": "add", "kind": "witness", "sec": "valueClassDefinitions", "path": [], "at": None,
+             "elem": {"tag": "valueClassDefinition", "name": "ratio/Class", "desc": "a/b",
+                      "attrs": [["allowedCharacter", ["digits", "slash"]]] + la}},
+            {"op": "add", "kind": "witness", "sec": "unitModifierDefinitions", "path": [], "at": None,
+             "elem": {"tag": "unitModifierDefinition", "name": "per/", "desc": None,
+                      "attrs": [["SIUnitModifier", []], ["allowedCharacter", ["slash"]]] + la}}]
+    cs.append({"kind": "edit", "schema": "HED8.3.0.xml", "base": "merged", "files": True, "ops": slash_ops()})
+    cs.append({"kind": "edit", "schema": "HED_score_2.0.0.xml", "base": "merged", "files": False, "ops": slash_ops("score")})
     # further shapes of the same findings
     for d, f in (("nbsp last\u00a0", F1), ("\"", F2), ("a <nowiki> b", F3), ("a </nowiki> b", F3)):
         w = _witness("HED8.3.0.xml", "merged", d)
@@ -1116,11 +1207,42 @@ def _edit_descs(case):
     return out
 
 
+def _rooted_edit(case):
+    """Names of the nodes the edit adds with a rooted attribute."""
+    return [(op["elem"]["name"] or "").strip() for op in case.get("ops", [])      # names are stripped on load (fix-F5)
+            if op["op"] == "add" and any(a[0] == "rooted" for a in op["elem"].get("attrs", []))]
+
+
+def _edit_names(case):
+    out = []
+
+    def walk(e):
+        out.append(e.get("name") or "")
+        for ch in e.get("children", []) or []:
+            walk(ch)
+    for op in case.get("ops", []):
+        if op["op"] == "add":
+            walk(op["elem"])
+    return out
+
+
 def classify(fmt, diffs, exc, case):
     """Known-finding id for a reload failure, or None.  `diffs` is schema_diff(orig, reloaded) (None if the load
     raised `exc`)."""
     descs = _edit_descs(case)
     fam = _family(fmt)
+    ctl = [n for n in _edit_names(case) if "\t" in n or "\n" in n]
+    if ctl:
+        # C05-F6: the TSV writer cannot write a cell holding a tab or line feed (QUOTE_NONE: 'need to escape'); a
+        # MediaWiki line cannot hold a line feed
+        if fam == "tsv" and exc is not None:
+            return F6
+        if fam == "mediawiki" and any("\n" in n for n in ctl):
+            if exc is not None:
+                return F6
+            if diffs and all("\n" in d["name"] or d["kind"] == "extra" or
+                             (d["kind"] == "changed" and d["od"] == d["rd"]) for d in diffs):
+                return F6
     if exc is not None:
         if not FIXED and fam == "tsv" and any(d.startswith('"') for d in descs):
             return F2
@@ -1137,6 +1259,16 @@ def classify(fmt, diffs, exc, case):
         return F1
     if not FIXED and fam == "tsv" and not extra and changed and all((d["od"] or "").startswith('"') for d in changed):
         return F2
+    if not FIXED7 and fam == "mediawiki" and _rooted_edit(case):
+        # C05-F7: exactly the subtrees of rooted library nodes come back under another parent: every missing and every
+        # extra entry is a tag whose path contains the name of a rooted node of the edit, same short names on both sides
+        roots = _rooted_edit(case)
+        moved = [d for d in diffs if d["kind"] in ("missing", "extra")]
+        if moved and len(moved) == len(diffs) and all(
+                d["sec"] == "tags" and any(r in d["name"].split("/") for r in roots) for d in moved) \
+                and sorted(d["name"].split("/")[-1] for d in moved if d["kind"] == "missing") \
+                == sorted(d["name"].split("/")[-1] for d in moved if d["kind"] == "extra"):
+            return F7
     if not FIXED5 and fam in ("mediawiki", "tsv"):
         # C05-F5: entries whose name has an outer (non-ASCII) blank come back under the stripped name (MediaWiki);
         # an attribute value or unit list that refers to such a name loses the blank (MediaWiki and TSV: the
@@ -1538,25 +1670,78 @@ def _candidate(fmt, m, diffs, case, c, orig=None, r=None):
 MULTILIB = [["testlib_2.0.0", "score_1.1.0"], ["score_1.1.0", "testlib_2.1.0"], ["score_1.1.0", "testlib_3.0.0"]]
 
 
-def run_multilib():
-    """List of failures of the refusal clause (empty = holds)."""
-    from hed.schema import load_schema_version
+def _partnered_files():
+    """{withStandard: [(file, library, version)]} of the bundled partnered libraries, read from the XML headers."""
+    groups = {}
+    for f in bundled():
+        try:
+            att = ET.parse(os.path.join(data_dir(), f)).getroot().attrib
+        except Exception:  # noqa
+            continue
+        if att.get("withStandard") and att.get("library"):
+            groups.setdefault(att["withStandard"], []).append((f, att["library"], att.get("version", "")))
+    return groups
+
+
+def multilib_builds(tier="quick"):
+    """Every legal way of building a schema from several library files: all pairs (and, thorough, triples) of bundled
+    partnered libraries with the same withStandard -- also two versions of the SAME library -- through every
+    construction path: load_schema_version('a,b'), the list form in both orders, load_schema(file_b, schema=A)."""
+    out = []
+    for ws, libs in sorted(_partnered_files().items()):
+        libs = sorted(libs)
+        for i in range(len(libs)):
+            for j in range(i + 1, len(libs)):
+                a, b = libs[i], libs[j]
+                for path in ("string", "list", "list-rev", "file+schema", "file+schema-rev"):
+                    out.append({"members": [a, b] if "rev" not in path else [b, a], "path": path})
+        if tier == "thorough" and len(libs) >= 3:
+            for i in range(len(libs)):
+                three = [x for k, x in enumerate(libs) if k != i][:3]
+                out.append({"members": three, "path": "list"})
+                out.append({"members": three, "path": "file+schema"})
+    return out
+
+
+def _build_merge(build):
+    from hed.schema import load_schema_version, load_schema
+    mem = build["members"]
+    vers = [f"{lib}_{ver}" for _, lib, ver in mem]
+    if build["path"] == "string":
+        return load_schema_version(",".join(vers))
+    if build["path"].startswith("list"):
+        return load_schema_version(list(vers))
+    s = load_schema(os.path.join(data_dir(), mem[0][0]))
+    for f, _, _ in mem[1:]:
+        s = load_schema(os.path.join(data_dir(), f), schema=s)
+    return s
+
+
+def run_multilib(tier="quick", info=None):
+    """List of failures of the refusal clause (empty = holds).  A schema counts as merged from several libraries BY
+    CONSTRUCTION (it was built from two or more library files), not by what its header says.  `info` (a list)
+    receives {"members", "path", "library"} of every legal merge, for the tie with Model/Traversal.v merged_library."""
     from hed.errors.exceptions import HedFileError
     out = []
     d = C.scratch_dir("hedverif-c05m-")
+    n_legal = 0
     try:
-        for pair in MULTILIB:
-            tag = "+".join(pair)
+        for bi, build in enumerate(multilib_builds(tier)):
+            tag = build["path"] + ":" + "+".join(f"{lib}_{ver}" for _, lib, ver in build["members"])
             try:
-                s = load_schema_version(pair)
+                s = _build_merge(build)
+            except HedFileError:
+                continue          # the implementation refuses this combination (e.g. overlapping nodes): not a legal merge
             except Exception as e:  # noqa
-                out.append(_fail("multi-library-refuses", None, None, f"{tag}: cannot load: {type(e).__name__}: {e}"))
+                out.append(_fail("multi-library-refuses", None, None, f"{tag}: building the merge raised {type(e).__name__}: {str(e)[:120]}",
+                                 witness=tag))
                 continue
-            if "," not in (s.library or ""):
-                out.append(_fail("multi-library-refuses", None, None, f"{tag}: library is {s.library!r}"))
-                continue
+            n_legal += 1
+            if info is not None:
+                info.append({"members": [lib for _, lib, _ in build["members"]], "path": build["path"], "tag": tag,
+                             "library": s.library})
             for m in (True, False):
-                sub = os.path.join(d, f"{tag}-{int(m)}")
+                sub = os.path.join(d, f"{bi}-{int(m)}")
                 os.makedirs(sub)
                 actions = [("xml", lambda: s.get_as_xml_string(m)),
                            ("mediawiki", lambda: s.get_as_mediawiki_string(m)),
@@ -1567,19 +1752,21 @@ def run_multilib():
                 for fmt, act in actions:
                     try:
                         act()
-                        out.append(_fail("multi-library-refuses", fmt, m, f"{tag}: save did not raise"))
+                        out.append(_fail("multi-library-refuses", fmt, m, f"{tag}: save did not raise", witness=tag))
                     except HedFileError as e:
                         if e.code != "SCHEMA_LIBRARY_INVALID":
-                            out.append(_fail("multi-library-refuses", fmt, m, f"{tag}: raised code {e.code}"))
+                            out.append(_fail("multi-library-refuses", fmt, m, f"{tag}: raised code {e.code}", witness=tag))
                     except Exception as e:  # noqa
                         out.append(_fail("multi-library-refuses", fmt, m,
-                                         f"{tag}: raised {type(e).__name__}: {str(e)[:120]}"))
+                                         f"{tag}: raised {type(e).__name__}: {str(e)[:120]}", witness=tag))
                 left = []
                 for dp, _, fs in os.walk(sub):
                     left += [os.path.join(dp, f) for f in fs if os.path.getsize(os.path.join(dp, f)) > 0]
                 if left:
                     out.append(_fail("multi-library-refuses", "files", m,
-                                     f"{tag}: refused save left {[os.path.relpath(x, sub) for x in left]}"))
+                                     f"{tag}: refused save left {[os.path.relpath(x, sub) for x in left]}", witness=tag))
+        if n_legal == 0:
+            out.append(_fail("harness-error", None, None, "no legal multi-library merge could be built"))
     finally:
         shutil.rmtree(d, ignore_errors=True)
     return out
@@ -1757,5 +1944,19 @@ def gen_histories(rng, tier):
     return out
 
 
+def run_multilib_case(case):
+    info = []
+    try:
+        fails = run_multilib(case.get("tier", "quick"), info)
+    except Exception:  # noqa
+        fails = [_fail("harness-error", None, None, traceback.format_exc()[-1500:])]
+    return {"case": case, "outcome": "ok", "failures": fails, "n_roundtrips": 0,
+            "stats": {"multilib_merges": len(info)}, "merges": info}
+
+
 def run_any(case):
-    return run_history(case) if case.get("kind") == "history" else run_case(case)
+    if case.get("kind") == "history":
+        return run_history(case)
+    if case.get("kind") == "multilib":
+        return run_multilib_case(case)
+    return run_case(case)
